@@ -328,7 +328,25 @@ def service_case(rnd, host_active):
         time.sleep(0.3)
         if pr.events:
             problems.append(f"after clear_collection_events() a triggered event still reached the host: {pr.events!r}")
-        call(h.subscribe_collection_event, 3, [10])
+        # the host subscribes again; the equipment triggers the event the moment it is enabled there - its S6F11 is on the wire before the S2F38
+        # that ends subscribe_collection_event() (forced: the equipment's S2F37 handler triggers and waits until the host has dealt with it)
+        real_s02f37 = e._on_s02f37
+
+        def racing_s02f37(handler, message):
+            result = real_s02f37(handler, message)
+            e.trigger_collection_events([3])
+            until(lambda: len(pr.events) >= 1, 2.0)
+            return result
+
+        e._on_s02f37 = racing_s02f37
+        try:
+            call(h.subscribe_collection_event, 3, [10])
+        finally:
+            del e._on_s02f37
+        until(lambda: len(pr.events) >= 1, 2.0)
+        if pr.events != [(3, [(10, 124)])]:
+            problems.append(f"an event triggered as soon as it was enabled, while the host was still inside subscribe_collection_event(), did not reach the host once: {pr.events!r}")
+        del pr.events[:]
         e.trigger_collection_events([3])
         until(lambda: len(pr.events) >= 1)
         if pr.events != [(3, [(10, 124)])]:
